@@ -259,19 +259,19 @@ SPECS = {
     "C13": dict(fn=c13, level="proof", components=["K4"], assumptions=MOL_ASSUME,
                 claim="Theorems classes_label_independent / classes_respect_automorphisms (unbounded: every molecule, every relabelling, listing order, bond orientation, payload) "
                       "about the Gallina model of partition_molecule_by_attribute/refine_partitions; model tied to the code by K4 (classes compared atom by atom) on every run; "
-                      "falsifier checks label independence, equitability and automorphism-respect on the implementation.",
+                      "falsifier checks label independence, equitability and automorphism-respect on the implementation. Lifted (EndToEnd2.v): C13_read_classes_* for graphs the reader returns.",
                 note=NOTE_MODEL, design_ref="DESIGN.md 4.13",
                 rule="molecule stream of gens.standard_stream (symmetric skeletons with partial labels, random, multi-component, organic, element traps, deep, trees, CFI) "
                      "+ exhaustive small scope; per molecule: relistings compared atom by atom through a tracer attribute, equitability and brute-force automorphisms (n<=7). "
                      "non-trivial = distinct molecule with >= 3 atoms and (non-trivial automorphism group or >= 2 refinement rounds or > 7 atoms)"),
     "C04": dict(fn=c04, level="proof", components=["K4", "K5", "K6"], assumptions=MOL_ASSUME,
                 claim="Theorem canonical_classes_edges_unique: for every labelling oracle meeting the canonical-form contract H2, two descriptions of one molecule get the same "
-                      "label->class map and edge set (unbounded). The bliss contract itself is assumed and tested (K6 = the property on the implementation).",
+                      "label->class map and edge set (unbounded). The bliss contract itself is assumed and tested (K6 = the property on the implementation). Lifted (EndToEnd2.v): C04_molfile_texts_canonical_unique(_total) for any two accepted texts of one molecule.",
                 note=NOTE_MODEL, design_ref="DESIGN.md 4.4",
                 rule="same stream; per molecule the views (label -> element, mass, radical, class; edge set) of the canonical graphs of several relistings are compared; non-trivial as for C13"),
     "C12": dict(fn=c12, level="proof", components=["K5"], assumptions=MOL_ASSUME,
                 claim="Theorem canonicalize_is_renaming: for every oracle returning a bijection (H1) the canonical graph is the input under a one-to-one renaming onto 0..n-1 with every "
-                      "payload and bond datum kept in place. Mutation/aliasing of Python objects cannot be exhibited by a pure model: decided by deep before/after comparison on the implementation.",
+                      "payload and bond datum kept in place. Mutation/aliasing of Python objects cannot be exhibited by a pure model: decided by deep before/after comparison on the implementation. Lifted (EndToEnd2.v): C12_molfile_text_canonical_graph for every accepted text.",
                 note=NOTE_MODEL, design_ref="DESIGN.md 4.12",
                 rule="same stream; deep before/after comparison of the argument object, tracer-based attribute and bond-data carrying, repeated calls; non-trivial as for C13"),
     "C01": dict(fn=c01, level="proof", components=["K4", "K5", "K6", "K7", "K1", "K2"], assumptions=MOL_ASSUME,
@@ -286,13 +286,13 @@ SPECS = {
     "C02": dict(fn=c02, level="proof", components=["K5", "K7", "K8", "K1", "K2"], assumptions=MOL_ASSUME,
                 claim="Theorem tucan_complete: for every oracle returning a bijection (H1), two molecules with the same emitted string are related by a colour-preserving isomorphism "
                       "(SameMol); corollary of the character-level round trip ref_parse(tucan m) ~ m. Unbounded. The falsifier groups every molecule of the run by string and compares with "
-                      "independent isomorphism oracles in both directions.",
+                      "independent isomorphism oracles in both directions. Lifted to molfile texts (EndToEnd2.v): C02_molfile_texts_complete, C02_molfile_text_string_complete, C02_molfile_texts_same_string_iff hold for every text the reader accepts.",
                 note=NOTE_MODEL, design_ref="DESIGN.md 4.2",
                 rule="same stream + near-miss families (cospectral / same degree sequence pairs, moved labels, CFI) + exhaustive small scope; all molecules of the run grouped by string and "
                      "compared with isomorphism (brute force n<=6, VF2 above) in both directions; non-trivial as for C13"),
     "C03": dict(fn=c03, level="proof", components=["K5", "K7", "K8"], assumptions=MOL_ASSUME,
                 claim="Theorems parse_tucan_roundtrip (printing, lexing, token parsing and listener semantics compose to the identity up to renaming; same atom and bond counts) and "
-                      "tucan_fixed_point (with H2) about the model and the reference reader; the ANTLR parser is tied to the reference reader by K8 only.",
+                      "tucan_fixed_point (with H2) about the model and the reference reader; the generated ANTLR recogniser and lexer are translated and proved equivalent to it (see C10); the hand-written listener is tied by K8. Lifted (EndToEnd2.v): C03_molfile_text_roundtrip_total / C03_tucan_string_roundtrip_total for every accepted molfile text / TUCAN string with an atom.",
                 note=NOTE_MODEL, design_ref="DESIGN.md 4.3",
                 rule="same stream; parse(tucan(G)) compared with G by an independent matcher, counts, second-generation string; non-trivial as for C13"),
     "C05": dict(fn=c05, level="proof", components=["K7", "K1", "K2"], assumptions=MOL_ASSUME,
